@@ -1,6 +1,7 @@
 import Amgcl.Model.ScheduleTeam
 import Amgcl.Model.ScheduleLocal
 import Amgcl.Proofs.SchedExec
+import Amgcl.Proofs.SchedLocal
 /-!
 Interleavings are insensitive to the order of the threads, to empty threads and get fewer when two threads are
 run one after the other by the same thread; the virtual threads served by the threads of a team of any size ≥ 1
@@ -283,5 +284,11 @@ theorem teamThreadOrder_levelwise {α : Type} (tk : List (List (List α))) (nt t
   | cons lev t ih =>
     rw [List.flatMap_cons]
     exact TeamLevelwiseExec.cons (Interleave.flatten_self _) ih
+
+theorem tasks_length (level : Array Nat) (nt : Nat) : (tasks level nt).length = nt := by simp [tasks]
+
+theorem constructorLoc_length {K : Type} [Zero K] (A : CRS K) (hasD : Bool) (Dv : Vec K) (ln : Array Nat × Nat) (nt : Nat) :
+    (evTable (constructorLoc A hasD Dv ln nt)).length = nt := by
+  simp [evTable, constructorLoc_eq, constructorLit_length]
 
 end Amgcl.Sched
